@@ -54,7 +54,31 @@ EXC_SHAPES = {
     'base': lambda: MyBaseException('base-exc'),
     'kbd': lambda: KeyboardInterrupt(),
     'noargs': lambda: RuntimeError(),
+    # the classes fiddle itself raises / looks for while calling a Buildable
+    'typeerror': lambda: TypeError('unsupported operand inside the callable'),
+    'typeerror-sub': lambda: TypeSubError('derived from TypeError'),
+    'attributeerror': lambda: AttributeError('no such attribute inside the callable'),
+    'valueerror-forbidden': lambda: ValueError('It is forbidden to call `fdl.build` inside another `fdl.build` call.'),
+    # classes the interpreter treats specially (generators / coroutines / interpreter exit) and
+    # classes whose constructors are implemented in C with their own argument conventions
+    'stopiter': lambda: StopIteration('done'),
+    'stopiter-sub': lambda: StopWithValue('payload'),
+    'stopasync': lambda: StopAsyncIteration('adone'),
+    'genexit': lambda: GeneratorExit('ge'),
+    'sysexit': lambda: SystemExit(3),
+    'oserror': lambda: OSError(2, 'No such file or directory', 'data.bin'),
+    'unicode': lambda: UnicodeDecodeError('utf-8', b'\xff', 0, 1, 'invalid start byte'),
+    'group': lambda: ExceptionGroup('several', [ValueError(1), KeyError('k')]),
 }
+
+
+class StopWithValue(StopIteration):
+  pass
+
+
+class TypeSubError(TypeError):
+  pass
+
 
 
 class BadRepr:
